@@ -531,12 +531,19 @@ FILTER_NAMES = (["truncate"] * 4 + ["wordwrap"] * 4 + ["indent"] * 3 + ["int"] *
                    "striptags", "striptags", "urlencode", "urlencode"])
 
 
+def _scaled(n):
+    """VERIF_SCALE (default 1) shrinks the case count for sensitivity runs: a prefix of the same seeded search."""
+    import os
+
+    return max(50, int(n * float(os.environ.get("VERIF_SCALE", "1"))))
+
+
 def shards(tier):
     return [{"i": i} for i in range(16 if tier == "quick" else 96)]
 
 
 def run_shard(spec, ctx):
-    return core.hyp_shard(cases(), check_case, ctx, max_examples=ctx.pick(9000, 22000))
+    return core.hyp_shard(cases(), check_case, ctx, max_examples=_scaled(ctx.pick(9000, 22000)))
 
 
 def floors(total, tier):
